@@ -141,6 +141,7 @@ Fixpoint enc_tree (fuel : nat) (t : tree) : sx :=
       | TE ns nm a c => L [A 0; of_opt of_str ns; of_str nm; enc_attrs a; L (map (enc_tree f) c)]
       | TT s => L [A 1; of_str s]
       | TC s => L [A 2; of_str s]
-      | TD nm p s => L [A 3; of_opt of_str (Some nm); of_opt of_str p; of_opt of_str s]
+      (* an empty doctype name is None in both DOM back ends (minidom and etree report no name for "<!DOCTYPE>") *)
+      | TD nm p s => L [A 3; of_opt of_str (match nm with [] => None | _ => Some nm end); of_opt of_str p; of_opt of_str s]
       end
   end.
